@@ -3,7 +3,7 @@
    and goes quiet, sleeps, and returns at the cancellation. *)
 From Coq Require Import List Bool NArith Lia ZifyN ZifyNat ZifyBool.
 Import ListNotations.
-From Setec Require Import Server.Backup.
+From Setec Require Import Base.SMap Server.KV Server.KVProofs Server.Backup.
 Open Scope N_scope.
 
 (* ---- the generation counter ---- *)
@@ -504,4 +504,56 @@ Proof.
     + injection E as _ E. destruct ok.
       * apply andb_true_iff in H. destruct H as [_ H]. eapply IH; eauto.
       * eapply IH; eauto.
+Qed.
+
+(* ---- which client calls are writes: exactly those for which the sequential specification
+   of the store needs a save (C02's [needs_save]) and whose save succeeds ---- *)
+Lemma neqb_spec : forall a b : N, N.eqb a b = true <-> a = b.
+Proof. intros a b. apply N.eqb_eq. Qed.
+
+Theorem saved_iff_needs_save ok (s : kvs N) o : Inv s ->
+  is_saved (snd (kv_step N.eqb ok s o)) = ok && needs_save N.eqb s o.
+Proof.
+  intros I. destruct ok.
+  - pose proof (@refines_spec_ok N N.eqb s o I) as H.
+    destruct (kv_step N.eqb true s o) as [[s' r] sv]. destruct (spec_step N.eqb s o) as [t q].
+    destruct H as (_ & _ & ->). cbn [snd andb]. destruct (needs_save N.eqb s o); reflexivity.
+  - pose proof (@refines_spec_fail N N.eqb s o I) as H.
+    destruct (kv_step N.eqb false s o) as [[s' r] sv]. cbn [snd andb].
+    destruct (needs_save N.eqb s o).
+    + destruct H as (_ & _ & ->). reflexivity.
+    + destruct H as (_ & ->). reflexivity.
+Qed.
+
+(* every tag computed by [classify] from the empty store is that verdict, in a state
+   satisfying the store's invariant *)
+Lemma classify_tags : forall evs s, Inv s ->
+  forall pre t ok o post, evs = pre ++ (t, ok, o) :: post ->
+  exists s1, Inv s1 /\ nth_error (fst (classify s evs)) (length pre) = Some (t, ok && needs_save N.eqb s1 o).
+Proof.
+  induction evs as [|[[t0 ok0] o0] evs IH]; intros s I pre t ok o post E.
+  - destruct pre; discriminate.
+  - cbn [classify]. destruct (kv_step N.eqb ok0 s o0) as [[s' r] sv] eqn:K.
+    destruct (classify s' evs) as [l sf] eqn:C. cbn [fst].
+    destruct pre as [|p pre]; cbn in E.
+    + injection E as -> -> -> _. exists s. split; [exact I|]. cbn [length nth_error].
+      pose proof (saved_iff_needs_save ok s o I) as H. rewrite K in H. cbn [snd] in H. rewrite H. reflexivity.
+    + injection E as _ E. cbn [length nth_error].
+      assert (I' : Inv s') by (eapply inv_step; eauto).
+      destruct (IH s' I' pre t ok o post E) as (s1 & I1 & H). rewrite C in H. exists s1. auto.
+Qed.
+
+(* ---- caught up at every wake-up: after an iteration whose upload (if any) was acknowledged,
+   the newest acknowledged backup is the file of the generation current at that wake-up ---- *)
+Theorem run_caught_up_each_wake tl its x : backup_run tl = Some (its, x) ->
+  forall pre it post, its = pre ++ it :: post ->
+  (forall a, i_up it = Some a -> a_ok a = true) ->
+  lastok 0 (pre ++ [it]) = i_gen it.
+Proof.
+  intros H pre it post E Hok.
+  destruct (run_change_driven _ _ _ H pre it post E) as [Hn Hs].
+  rewrite lastok_app. cbn. unfold lastok_step.
+  destruct (i_up it) as [a|] eqn:Eu.
+  - rewrite (Hok a eq_refl). destruct (Hs a eq_refl) as (Hg & _). exact Hg.
+  - symmetry. apply Hn. reflexivity.
 Qed.
